@@ -540,6 +540,8 @@ func (w *World) InBoundsProven(pos token.Pos) bool {
 // mean the same into one form, so that rules which read syntax see one form:
 //
 //	var x = e   (inside a function, no type given)   →   x := e
+//	switch { case v == a || v == b: … }   (every case a disjunction of v == constant, v one local variable)   →   switch v { case a, b: … }
+//	if v == a {…} else if v == b || v == c {…} else if … [else {…}]   (three or more such arms, no unlabelled break inside)   →   the same switch
 //
 // The identifiers are kept (their objects and types are unchanged), no node is
 // invented, and go/ssa builds the same code from either spelling.
@@ -572,21 +574,162 @@ func (w *World) normaliseSyntax() {
 		for _, f := range p.Syntax {
 			ast.Inspect(f, func(n ast.Node) bool {
 				switch b := n.(type) {
+				case *ast.SwitchStmt:
+					tagSwitch(p, b)
 				case *ast.BlockStmt:
 					for i, s := range b.List {
-						b.List[i] = conv(s)
+						b.List[i] = chainToSwitch(p, conv(s))
 					}
 				case *ast.CaseClause:
 					for i, s := range b.Body {
-						b.Body[i] = conv(s)
+						b.Body[i] = chainToSwitch(p, conv(s))
 					}
 				case *ast.CommClause:
 					for i, s := range b.Body {
-						b.Body[i] = conv(s)
+						b.Body[i] = chainToSwitch(p, conv(s))
 					}
 				}
 				return true
 			})
 		}
 	}
+}
+
+// tagSwitch turns a tagless switch all of whose cases compare one local
+// variable with constants into the switch on that variable (existing nodes
+// are reused, so their recorded types stay valid).
+func tagSwitch(p *packages.Package, sw *ast.SwitchStmt) {
+	if sw.Tag != nil || sw.Init != nil || len(sw.Body.List) == 0 {
+		return
+	}
+	var subj types.Object
+	var subjIdent *ast.Ident
+	ok := true
+	var consts func(e ast.Expr, out *[]ast.Expr)
+	consts = func(e ast.Expr, out *[]ast.Expr) {
+		be, isB := ast.Unparen(e).(*ast.BinaryExpr)
+		if !isB {
+			ok = false
+			return
+		}
+		switch be.Op {
+		case token.LOR:
+			consts(be.X, out)
+			consts(be.Y, out)
+		case token.EQL:
+			v, c := ast.Unparen(be.X), ast.Unparen(be.Y)
+			if tv, has := p.TypesInfo.Types[v]; has && tv.Value != nil {
+				v, c = c, v
+			}
+			id, isId := v.(*ast.Ident)
+			tv, has := p.TypesInfo.Types[c]
+			if !isId || !has || tv.Value == nil {
+				ok = false
+				return
+			}
+			o, isVar := p.TypesInfo.Uses[id].(*types.Var)
+			if !isVar || o.IsField() || o.Parent() == nil || o.Parent() == o.Pkg().Scope() || (subj != nil && subj != types.Object(o)) {
+				ok = false
+				return
+			}
+			// the constant is compared as the variable's type in both spellings
+			if !types.Identical(tv.Type, o.Type()) {
+				ok = false
+				return
+			}
+			if subj == nil {
+				subj, subjIdent = o, id
+			}
+			*out = append(*out, c)
+		default:
+			ok = false
+		}
+	}
+	lists := make([][]ast.Expr, len(sw.Body.List))
+	for i, c := range sw.Body.List {
+		cc, isCC := c.(*ast.CaseClause)
+		if !isCC {
+			return
+		}
+		for _, e := range cc.List {
+			consts(e, &lists[i])
+		}
+		if !ok {
+			return
+		}
+	}
+	if subjIdent == nil {
+		return
+	}
+	sw.Tag = subjIdent
+	for i, c := range sw.Body.List {
+		cc := c.(*ast.CaseClause)
+		if cc.List != nil {
+			cc.List = lists[i]
+		}
+	}
+}
+
+// chainToSwitch turns an if / else-if chain of three or more arms, every
+// condition a disjunction of v == constant for one local variable v, into a
+// tagless switch (which tagSwitch then tags).  The switch and case nodes are
+// new; conditions and bodies are the chain's own nodes.  Not done when a body
+// holds an unlabelled break that would bind to the new switch.
+func chainToSwitch(p *packages.Package, s ast.Stmt) ast.Stmt {
+	head, ok := s.(*ast.IfStmt)
+	if !ok {
+		return s
+	}
+	var clauses []ast.Stmt
+	arms := 0
+	for cur := head; ; {
+		if cur.Init != nil || breaksOut(cur.Body) {
+			return s
+		}
+		clauses = append(clauses, &ast.CaseClause{Case: cur.Pos(), List: []ast.Expr{cur.Cond}, Colon: cur.Body.Lbrace, Body: cur.Body.List})
+		arms++
+		switch e := cur.Else.(type) {
+		case nil:
+		case *ast.IfStmt:
+			cur = e
+			continue
+		case *ast.BlockStmt:
+			if breaksOut(e) {
+				return s
+			}
+			clauses = append(clauses, &ast.CaseClause{Case: e.Pos(), Colon: e.Lbrace, Body: e.List})
+		default:
+			return s
+		}
+		break
+	}
+	if arms < 3 {
+		return s
+	}
+	sw := &ast.SwitchStmt{Switch: head.Pos(), Body: &ast.BlockStmt{Lbrace: head.Body.Lbrace, List: clauses, Rbrace: head.End() - 1}}
+	tagSwitch(p, sw)
+	if sw.Tag == nil {
+		return s
+	}
+	return sw
+}
+
+// breaksOut: the block holds a break without label that is not inside a
+// nested loop, switch or select of its own.
+func breaksOut(b *ast.BlockStmt) bool {
+	found := false
+	var walk func(n ast.Node) bool
+	walk = func(n ast.Node) bool {
+		switch x := n.(type) {
+		case *ast.ForStmt, *ast.RangeStmt, *ast.SwitchStmt, *ast.TypeSwitchStmt, *ast.SelectStmt, *ast.FuncLit:
+			return false
+		case *ast.BranchStmt:
+			if x.Tok == token.BREAK && x.Label == nil {
+				found = true
+			}
+		}
+		return true
+	}
+	ast.Inspect(b, walk)
+	return found
 }
